@@ -6,19 +6,19 @@ SPEC = {
         # The enumeration visits the idle-shutdown histories ("I C", "T C") first: a tree in which
         # wait(true) parks with zero handlers fails here after one 2 s observation.
         {"name": "term-enum", "pkg": P, "kind": "plain", "run": "^TestVerifC19TermEnum$",
-         "quick": {"shards": 2, "timeout": 240}, "thorough": {"shards": 8, "timeout": 900}},
+         "quick": {"shards": 2, "timeout": 240}, "thorough": {"shards": 12, "timeout": 900}},
         {"name": "term-machine", "pkg": P, "kind": "rapid", "run": "^TestVerifC19TermMachine$",
          "quick": {"checks": 3000, "shards": 1, "timeout": 240, "shrinktime": "6s"},
-         "thorough": {"checks": 5000, "shards": 16, "timeout": 900, "shrinktime": "10s"}},
+         "thorough": {"checks": 15000, "shards": 16, "timeout": 900, "shrinktime": "10s"}},
         {"name": "term-free", "pkg": P, "kind": "rapid", "run": "^TestVerifC19TermFree$",
          "quick": {"checks": 300, "shards": 1, "timeout": 240, "race": True, "shrinktime": "6s"},
-         "thorough": {"checks": 3000, "shards": 4, "timeout": 900, "race": True, "shrinktime": "10s"}},
+         "thorough": {"checks": 6000, "shards": 4, "timeout": 900, "race": True, "shrinktime": "10s"}},
         {"name": "relay-lock", "pkg": P, "kind": "rapid", "run": "^TestVerifC19RelayLockstep$",
          "quick": {"checks": 2000, "shards": 1, "timeout": 240},
-         "thorough": {"checks": 5000, "shards": 16, "timeout": 900}},
+         "thorough": {"checks": 12000, "shards": 16, "timeout": 900}},
         {"name": "relay-free", "pkg": P, "kind": "rapid", "run": "^TestVerifC19RelayFree$",
          "quick": {"checks": 300, "shards": 1, "timeout": 240, "race": True},
-         "thorough": {"checks": 3000, "shards": 8, "timeout": 900, "race": True}},
+         "thorough": {"checks": 6000, "shards": 8, "timeout": 900, "race": True}},
     ],
 }
 
